@@ -1,7 +1,7 @@
 (* Stages B, C and D of C01_back: programs over top-level variables.  A program is a list of top-level statements -
    declarations `x := e`, assignments `x = e`, expression statements, conditionals `if c { ... } else { ... }` / `if c { ... }` and
    condition loops `for c { ... }` whose blocks are again lists of assignments, expression statements, conditionals
-   and loops, nested to any depth - over the scalar expressions of ScalarFrag.v (which may mention the variables
+   and loops, nested to any depth, with break and continue - over the scalar expressions of ScalarFrag.v (which may mention the variables
    declared so far).  The k-th declaration declares variable k; [names] gives the variables their (distinct,
    non-empty) identifiers.  As for the expression fragment: the code the compiler model emits and the source-level
    result are pure functions; proofs/Var*Proofs.v show that they ARE what Compiler.compile_program, Sem.run and
@@ -17,7 +17,8 @@ Inductive stmt :=
 | SExpr (e : sexp)
 | SIf (c : sexp) (t e : list stmt)       (* if c { t } else { e } *)
 | SIf1 (c : sexp) (t : list stmt)        (* if c { t } *)
-| SWhile (c : sexp) (b : list stmt).     (* for c { b } *)
+| SWhile (c : sexp) (b : list stmt)      (* for c { b } *)
+| SBreak | SContinue.                    (* only inside a loop body *)
 
 (* k = number of variables declared so far *)
 Definition next_k (k : nat) (s : stmt) : nat := match s with SDecl _ => S k | _ => k end.
@@ -34,6 +35,8 @@ Fixpoint embed_stmt (names : list (list N)) (k : nat) (s : stmt) {struct s} : no
   | SIf c t e => NIf (embed names c) (embed_list (embed_stmt names) k t) (Some (embed_list (embed_stmt names) k e))
   | SIf1 c t => NIf (embed names c) (embed_list (embed_stmt names) k t) None
   | SWhile c b => NFor (Some (embed names c)) None None (embed_list (embed_stmt names) k b)
+  | SBreak => NBreak
+  | SContinue => NContinue
   end.
 Definition embed_stmts (names : list (list N)) : nat -> list stmt -> list node := embed_list (embed_stmt names).
 
@@ -41,17 +44,18 @@ Definition embed_stmts (names : list (list N)) : nat -> list stmt -> list node :
 Definition wf_list (w : nat -> stmt -> bool) : nat -> list stmt -> bool :=
   fix wl (k : nat) (l : list stmt) : bool :=
     match l with [] => true | s :: r => w k s && wl (next_k k s) r end.
-(* variables are used after their declaration; declarations only at the top level *)
-Fixpoint wf_stmt (top : bool) (k : nat) (s : stmt) {struct s} : bool :=
+(* variables are used after their declaration; declarations only at the top level; break / continue only inside a loop *)
+Fixpoint wf_stmt (top lp : bool) (k : nat) (s : stmt) {struct s} : bool :=
   match s with
   | SDecl e => top && wf k e
   | SSet i e => Nat.ltb i k && wf k e
   | SExpr e => wf k e
-  | SIf c t e => wf k c && wf_list (wf_stmt false) k t && wf_list (wf_stmt false) k e
-  | SIf1 c t => wf k c && wf_list (wf_stmt false) k t
-  | SWhile c b => wf k c && wf_list (wf_stmt false) k b
+  | SIf c t e => wf k c && wf_list (wf_stmt false lp) k t && wf_list (wf_stmt false lp) k e
+  | SIf1 c t => wf k c && wf_list (wf_stmt false lp) k t
+  | SWhile c b => wf k c && wf_list (wf_stmt false true) k b
+  | SBreak | SContinue => lp
   end.
-Definition wf_stmts (top : bool) : nat -> list stmt -> bool := wf_list (wf_stmt top).
+Definition wf_stmts (top lp : bool) : nat -> list stmt -> bool := wf_list (wf_stmt top lp).
 
 Fixpoint ndecls (l : list stmt) : nat :=
   match l with [] => 0 | SDecl _ :: r => S (ndecls r) | _ :: r => ndecls r end.
@@ -63,12 +67,14 @@ Fixpoint sheight (s : stmt) : nat :=
   | SDecl e | SSet _ e | SExpr e => height e
   | SIf c t e => S (Nat.max (height c) (Nat.max (max_list sheight 0 t) (max_list sheight 0 e)))
   | SIf1 c b | SWhile c b => S (Nat.max (height c) (max_list sheight 0 b))
+  | SBreak | SContinue => 0
   end.
 Fixpoint sneed (s : stmt) : nat :=
   match s with
   | SDecl e | SSet _ e | SExpr e => need e
   | SIf c t e => Nat.max (need c) (Nat.max (max_list sneed 1 t) (max_list sneed 1 e))
   | SIf1 c b | SWhile c b => Nat.max (need c) (max_list sneed 1 b)
+  | SBreak | SContinue => 1
   end.
 Definition max_height (l : list stmt) : nat := max_list sheight 0 l.
 Definition max_need (l : list stmt) : nat := max_list sneed 1 l.
@@ -77,9 +83,11 @@ Fixpoint set_nth (i : nat) (v : sval) (l : list sval) : list sval :=
   match l, i with [], _ => [] | _ :: r, O => v :: r | x :: r, S j => x :: set_nth j v r end.
 
 (* ---------------------------------------------------------------- source-level meaning *)
-(* a statement: the new values of the variables and the statement's value, or the class of the error;
+(* a statement: the new values of the variables and the statement's value, or what stopped it - the class of an error, or
+   a break / continue on its way to the enclosing loop (with the values of the variables at that point);
    None: not enough fuel (each nesting level and each loop iteration costs one) *)
-Definition result : Type := option ((list sval * sval) + serr).
+Inductive stop := StErr (e : serr) | StBrk (rho : list sval) | StCont (rho : list sval).
+Definition result : Type := option ((list sval * sval) + stop).
 (* a statement list: the value of its last statement if that is an expression, else nil *)
 Definition run_list (step : list sval -> stmt -> result) : list sval -> list stmt -> sval -> result :=
   fix rl (rho : list sval) (l : list stmt) (last : sval) : result :=
@@ -87,76 +95,92 @@ Definition run_list (step : list sval -> stmt -> result) : list sval -> list stm
     | [] => Some (inl (rho, last))
     | s :: r => match step rho s with Some (inl (rho', v)) => rl rho' r v | other => other end
     end.
+Definition of_sev (r : sval + serr) (k : sval -> (list sval * sval)) : result :=
+  match r with inl v => Some (inl (k v)) | inr x => Some (inr (StErr x)) end.
 Fixpoint run_stmt (fuel : nat) (rho : list sval) (s : stmt) {struct fuel} : result :=
   match fuel with
   | O => None
   | S f =>
     match s with
-    | SDecl e => match sev rho e with inl v => Some (inl (rho ++ [v], VNil)) | inr x => Some (inr x) end
-    | SSet i e => match sev rho e with inl v => Some (inl (set_nth i v rho, VNil)) | inr x => Some (inr x) end
-    | SExpr e => match sev rho e with inl v => Some (inl (rho, v)) | inr x => Some (inr x) end
+    | SDecl e => of_sev (sev rho e) (fun v => (rho ++ [v], VNil))
+    | SSet i e => of_sev (sev rho e) (fun v => (set_nth i v rho, VNil))
+    | SExpr e => of_sev (sev rho e) (fun v => (rho, v))
     | SIf c t e => match sev rho c with
                    | inl vc => run_list (run_stmt f) rho (if struthy vc then t else e) VNil
-                   | inr x => Some (inr x)
+                   | inr x => Some (inr (StErr x))
                    end
     | SIf1 c t => match sev rho c with
                   | inl vc => if struthy vc then run_list (run_stmt f) rho t VNil else Some (inl (rho, VNil))
-                  | inr x => Some (inr x)
+                  | inr x => Some (inr (StErr x))
                   end
     | SWhile c b => match sev rho c with
                     | inl vc =>
                         if struthy vc then
                           match run_list (run_stmt f) rho b VNil with
-                          | Some (inl (rho', _)) => run_stmt f rho' (SWhile c b)
+                          | Some (inl (rho', _)) | Some (inr (StCont rho')) => run_stmt f rho' (SWhile c b)
+                          | Some (inr (StBrk rho')) => Some (inl (rho', VNil))
                           | other => other
                           end
                         else Some (inl (rho, VNil))
-                    | inr x => Some (inr x)
+                    | inr x => Some (inr (StErr x))
                     end
+    | SBreak => Some (inr (StBrk rho))
+    | SContinue => Some (inr (StCont rho))
     end
   end.
 Definition run_stmts (fuel : nat) : list sval -> list stmt -> sval -> result := run_list (run_stmt fuel).
 
 (* ---------------------------------------------------------------- emitted code *)
+(* code is a list of slots: numbers, and the two placeholders break / continue leave for the enclosing loop to patch *)
+Definition slots : Type := list slot * list konst.
+Definition islots (p : list N * list konst) : slots := (I (fst p), snd p).
 Definition is_expr_stmt (s : stmt) : bool := match s with SExpr _ | SIf _ _ _ | SIf1 _ _ => true | _ => false end.
 (* a non-empty statement list as compileStatements lays it out: an expression statement is followed by PopTop unless
    it is the last one; a last statement that is not an expression is followed by Nil *)
-Definition layout (sc : nat -> nat -> stmt -> list N * list konst) : nat -> nat -> list stmt -> list N * list konst :=
-  fix lc (k base : nat) (l : list stmt) : list N * list konst :=
+Definition layout (sc : nat -> nat -> stmt -> slots) : nat -> nat -> list stmt -> slots :=
+  fix lc (k base : nat) (l : list stmt) : slots :=
     match l with
     | [] => ([], [])
     | s :: r =>
         let '(c, ks) := sc k base s in
         match r with
-        | [] => (c ++ (if is_expr_stmt s then [] else [opNil]), ks)
+        | [] => (c ++ (if is_expr_stmt s then [] else I [opNil]), ks)
         | _ :: _ => let '(cr, kr) := lc (next_k k s) (base + length ks) r in
-                    (c ++ (if is_expr_stmt s then [opPopTop] else []) ++ cr, ks ++ kr)
+                    (c ++ (if is_expr_stmt s then I [opPopTop] else []) ++ cr, ks ++ kr)
         end
     end.
 (* a block: an empty one is Nil *)
-Definition block_layout (sc : nat -> nat -> stmt -> list N * list konst) (k base : nat) (l : list stmt) : list N * list konst :=
-  match l with [] => ([opNil], []) | _ :: _ => layout sc k base l end.
+Definition block_layout (sc : nat -> nat -> stmt -> slots) (k base : nat) (l : list stmt) : slots :=
+  match l with [] => (I [opNil], []) | _ :: _ => layout sc k base l end.
 
 (* the code of one statement (without what separates it from the next), [k] variables declared, [base] constants *)
-Fixpoint stmt_code (k base : nat) (s : stmt) {struct s} : list N * list konst :=
+Fixpoint stmt_code (k base : nat) (s : stmt) {struct s} : slots :=
   match s with
-  | SDecl e => let '(c, ks) := cexp base e in (c ++ [opStoreGlobal; N.of_nat k], ks)
-  | SSet i e => let '(c, ks) := cexp base e in (c ++ [opStoreGlobal; N.of_nat i], ks)
-  | SExpr e => cexp base e
+  | SDecl e => let '(c, ks) := cexp base e in (I (c ++ [opStoreGlobal; N.of_nat k]), ks)
+  | SSet i e => let '(c, ks) := cexp base e in (I (c ++ [opStoreGlobal; N.of_nat i]), ks)
+  | SExpr e => islots (cexp base e)
   | SIf c t e =>
       let '(cc, kc) := cexp base c in
       let '(ct, kt) := block_layout stmt_code k (base + length kc) t in
       let '(ce, ke) := block_layout stmt_code k (base + length kc + length kt) e in
-      (cc ++ [opPopJumpForwardIfFalse; (nlenN ct + 4)%N] ++ ct ++ [opJumpForward; (nlenN ce + 2)%N] ++ ce, kc ++ kt ++ ke)
+      (I cc ++ I [opPopJumpForwardIfFalse; (nlen ct + 4)%N] ++ ct ++ I [opJumpForward; (nlen ce + 2)%N] ++ ce, kc ++ kt ++ ke)
   | SIf1 c t =>
       let '(cc, kc) := cexp base c in
       let '(ct, kt) := block_layout stmt_code k (base + length kc) t in
-      (cc ++ [opPopJumpForwardIfFalse; (nlenN ct + 4)%N] ++ ct ++ [opJumpForward; 3%N] ++ [opNil], kc ++ kt)
+      (I cc ++ I [opPopJumpForwardIfFalse; (nlen ct + 4)%N] ++ ct ++ I [opJumpForward; 3%N] ++ I [opNil], kc ++ kt)
   | SWhile c b =>
+      (* the loop patches the placeholders of its body: break jumps to the Nop behind the JumpBackward, continue to the
+         JumpBackward *)
       let '(cc, kc) := cexp base c in
       let '(cb, kb) := block_layout stmt_code k (base + length kc) b in
-      (cc ++ [opPopJumpForwardIfFalse; (nlenN cb + 6)%N] ++ cb ++
-       [opPopTop; opJumpBackward; (nlenN cc + 2 + nlenN cb + 1)%N; opNop], kc ++ kb)
+      let inner := I cc ++ I [opPopJumpForwardIfFalse; (nlen cb + 6)%N] ++ cb ++ I [opPopTop] in
+      let jb := nlen inner in
+      (patch 0 (jb + 2) jb inner ++ I [opJumpBackward; jb; opNop], kc ++ kb)
+  | SBreak => ([SI opJumpForward; SBrk], [])
+  | SContinue => ([SI opJumpForward; SCont], [])
   end.
-Definition block_code : nat -> nat -> list stmt -> list N * list konst := block_layout stmt_code.
-Definition pcode : nat -> nat -> list stmt -> list N * list konst := layout stmt_code.
+Definition block_code : nat -> nat -> list stmt -> slots := block_layout stmt_code.
+Definition scode : nat -> nat -> list stmt -> slots := layout stmt_code.
+(* what ends up in the code object *)
+Definition strip (l : list slot) : list N := map (fun s => match s with SI n => n | _ => PLACEHOLDER end) l.
+Definition pcode (k base : nat) (l : list stmt) : list N * list konst := (strip (fst (scode k base l)), snd (scode k base l)).
